@@ -258,6 +258,25 @@ func dedup(k []string) []string {
 	return out
 }
 
+// ExitNow ends the process after something was journaled that makes it
+// impossible to go on (e.g. leaked goroutines keep a bubble from finishing).
+// Exit code 3 tells the driver that this is deliberate; it restarts the run,
+// which resumes after the cases already journaled.
+func (r *Run) ExitNow() {
+	r.mu.Lock()
+	r.f.Sync()
+	r.mu.Unlock()
+	os.Exit(3)
+}
+
+// MarkDone journals the case as finished (used before ExitNow).
+func (c *Case) MarkDone() {
+	if c.evals == 0 {
+		c.evals = 1
+	}
+	c.R.line(map[string]interface{}{"t": "done", "i": c.I, "evals": c.evals, "keys": dedup(c.keys), "nd": c.nd})
+}
+
 // Count adds to a named counter reported in the evidence.
 func (r *Run) Count(name string, n int) {
 	r.mu.Lock()
